@@ -10,7 +10,7 @@ from pathlib import Path
 
 ROOT = Path(os.environ.get("HIVEMON_ROOT", Path(__file__).resolve().parent.parent))
 REPO = Path(os.environ.get("HIVEMON_REPO", "/repo"))
-EVIDENCE = ROOT / "evidence"
+EVIDENCE = Path(os.environ.get("HIVEMON_EVIDENCE", ROOT / "evidence"))
 PY = "/venv/bin/python"
 
 
